@@ -49,6 +49,7 @@ ASSUME = [
 
 _seq = [0]
 _lock = threading.Lock()
+OFFENDERS = {}  # record index -> files TLC found removed but not deletable
 
 
 def run_tlc(spec, cfg, wd, workers=1, env=None, timeout=3000, xmx="6g"):
@@ -194,14 +195,36 @@ def validate(lines, wd):
             raise Inconclusive("trace validation did not consume shard %d (rc=%d); TLC output in %s" % (k, rc, op))
         st, tr = vlib.tlc_stats(out)
         reps = vlib.scenario_reports(out)
+        offenders = {}
+        for m in re.finditer(r'<<\s*"OFFENDERS",', out):
+            depth, j = 0, m.start()
+            while j < len(out):
+                if out.startswith("<<", j):
+                    depth += 1
+                    j += 2
+                elif out.startswith(">>", j):
+                    depth -= 1
+                    j += 2
+                    if depth == 0:
+                        break
+                else:
+                    j += 1
+            try:
+                v = vlib.parse_tla_value(out[m.start():j])
+                offenders[v[1]] = v[2]
+            except (ValueError, IndexError):
+                pass
         shutil.rmtree(td, ignore_errors=True)
-        return reps, st, tr
+        return reps, st, tr, offenders
     res = in_threads([(lambda k=k: one(k)) for k in range(nshards)])
     viol, states, trans, seen = {}, 0, 0, 0
-    for k, (reps, st, tr) in enumerate(res):
+    for k, (reps, st, tr, offenders) in enumerate(res):
         states += st
         trans += tr
         seen += len(reps)
+        for line, fs in offenders.items():
+            if 1 <= line <= len(shards[k]):
+                OFFENDERS[shards[k][line - 1]] = fs
         for _name, vs in reps:
             for f, line in vs:
                 if 1 <= line <= len(shards[k]):
@@ -280,6 +303,7 @@ def run(prop, tier):
                 if per_formula[f] > 4:
                     continue
                 b = brief(rec)
+                b["removed_but_not_deletable"] = [" ".join(str(x) for x in f if x != "") for f in OFFENDERS.get(i, [])][:40]
                 path = vlib.write_replay(prop, rec["name"].replace("/", "_") + "--" + f, {
                     "property": prop, "formula": f, "scenario": rec["name"], "tier": tier, "seed": sd, "run": b, "record": rec,
                     "tool_output": rec.get("out", ""),
